@@ -212,6 +212,14 @@ def run(ctx: Ctx) -> None:
     rep.rule("C04.R8", "every path of a commit batch is committed: no early exit from the loop of sync_paths, in any store")
     n8 = S.every_path_processed(ctx, "C04.R8")
     rep.floor("C04.R8", n8, 2)
+    rep.rule("C04.R10", "as C08.R14 / C17.R9: a stored blob is reported present whatever its value (None in the memory store, a zero-length file in the local store): the commit "
+                        "keeps only the paths whose blob is present, so a blob wrongly reported absent leaves its path serving the previous value")
+    n10 = S.memory_presence_by_membership(ctx, "C04.R10") + S.presence_ignores_size(ctx, v, "C04.R10")
+    rep.floor("C04.R10", n10, 3)
+    rep.rule("C04.R11", "as C08.R13: a path has one spelling - kept through a pathlib.Path or through its text (with or without empty segments) it is the same entry of the store, so "
+                        "that keeping it again replaces what every spelling serves")
+    n11 = S.one_spelling_per_path(ctx, "C04.R11")
+    rep.floor("C04.R11", n11, 1)
     if rep.prop == "C04":
         # the DBFS store: each documented commit type is accepted and does what it names (a commit type that silently commits nothing
         # leaves every kept path unresolvable), redirect records are written where they are read, ...
